@@ -708,7 +708,7 @@ class C18(Prop):
     id = "C18"
     no_shrink = True   # cases are reported exactly as generated (lines depend on each other)
     title = "Runtime errors are reported at the right file and line with a correct trace"
-    lean_modules = ["NV.C18.Props", "NV.C18.PropsCompile", "NV.C18.PropsDump", "NV.C18.PropsOracle", "NV.C18.PropsInit", "NV.C18.Witness", "NV.C18.SourceTexts",
+    lean_modules = ["NV.C18.Props", "NV.C18.PropsCompile", "NV.C18.PropsDump", "NV.C18.PropsOracle", "NV.C18.PropsInit", "NV.C18.PropsLex", "NV.C18.Witness", "NV.C18.SourceTexts",
                     "NV.C18.SourceTexts2"]
     theorems = ["NV.C18.line_roundtrip_raw", "NV.C18.line_roundtrip", "NV.C18.long_statement_ok",
                 "NV.C18.file_roundtrip", "NV.C18.file_roundtrip_ids", "NV.C18.file_roundtrip_partial",
@@ -719,7 +719,7 @@ class C18(Prop):
                 "NV.C18.compile_roundtrip", "NV.C18.abs_pos", "NV.C18.abs_mono",
                 "NV.C18.frame_kinds_exhaustive", "NV.C18.dump_trace_matches_svalue_trace", "NV.C18.dtText_spec",
                 "NV.C18.locText_of_ok", "NV.C18.dump_trace_args_lines", "NV.C18.dump_trace_ret_heart_beat",
-                "NV.C18.translate_eq_positions", "NV.C18.init_block_roundtrip", "NV.C18.placeNotes_runFrom", "NV.C18.findRun_append_out", "NV.C18.file_roundtrip_global_include", "NV.C18.psizeRejects_iff", "NV.C18.pass2_agrees", "NV.C18.source_statements_agree2"]
+                "NV.C18.lex_push_agrees", "NV.C18.lex_pop_agrees", "NV.C18.lex_final_agrees", "NV.C18.node_line_agrees", "NV.C18.translate_eq_positions", "NV.C18.init_block_roundtrip", "NV.C18.placeNotes_runFrom", "NV.C18.findRun_append_out", "NV.C18.file_roundtrip_global_include", "NV.C18.psizeRejects_iff", "NV.C18.pass2_agrees", "NV.C18.source_statements_agree2"]
     witness_theorems = ["NV.C18.file_roundtrip_Full_false", "NV.C18.line_roundtrip_Full_false",
                         "NV.C18.reinclude_wrong", "NV.C18.reinclude_repaired", "NV.C18.wide_wrong", "NV.C18.signed_short_wrong",
                         "NV.C18.init_block_only_noted", "NV.C18.init_replay", "NV.C18.heart_beat_ret_before_fix"]
@@ -738,38 +738,57 @@ class C18(Prop):
     search_n = 300
     design_ref = "5/C18"
     technique = ("Lean 4 proof (encoder/decoder round trip by induction over emission sequences and include layouts, "
-                 "control-stack simulation) + translator-generated constants + model/implementation correspondence on "
-                 "dumped tables, compiler events and the control stack")
-    level_text = ("Lean 4 theorems about an executable model of the line-number machinery (switch_to_line run encoder, "
-                  "save_file_info / #include push and pop, find_line scan, translate_absolute_line, push/pop_control_stack, "
-                  "get_svalue_trace): line_roundtrip and long_statement_ok for all emission sequences and offsets, "
-                  "file_roundtrip for all include layouts without a repeated file, trace_order for all call/return "
-                  "sequences; tied to the C code on every run: the model encoder replays the compiler's hook events and "
-                  "must reproduce the real tables byte for byte, the model decoder must agree with the real "
-                  "get_line_number on every code offset of every dumped program, the model trace assembly must agree "
-                  "with what the master's error_handler receives; the specification oracle compares every report with "
-                  "the generator's record of where the failing statement is")
-    level_note = ("trusted: Lean kernel; extract.py; the correspondence harness (differential, generated programs only); "
-                  "proved with side conditions: absolute lines < 2^16 (witness beyond, finding C18-F3), no header "
-                  "included twice (witness, finding C18-F4); which line the code generator attributes to a parse node "
-                  "is compared, not proved; code of global variable initialisers has no line info (finding C18-F1)")
+                 "end-to-end composition compile_roundtrip, control-stack simulation, log text vs mapping trace) + "
+                 "translator-generated constants and loop guards + model/implementation correspondence on dumped tables, "
+                 "compiler events, the control stack and the captured dump_trace log")
+    level_text = ("Lean 4 theorems about an executable model of the line-number machinery (switch_to_line run encoder incl. the "
+                  "__INIT replay, save_file_info / #include push and pop / global include, find_line scan and program_size "
+                  "test, translate_absolute_line both passes, push/pop_control_stack, get_svalue_trace, dump_trace text, "
+                  "return value and argument-line structure): compile_roundtrip (for every lexer event sequence and every "
+                  "emission sequence in code order, find_line on the finished tables returns the file and line of the "
+                  "lexer position of the parse node, every offset), line_roundtrip, long_statement_ok, init_block_roundtrip, "
+                  "file_roundtrip for all include layouts (repeated and recursive includes, global include), "
+                  "translate_eq_positions (decoder = oracle positions on every line of every table), trace_order, "
+                  "apply_frame_named, dump_trace_matches_svalue_trace; tied to the C code on every run: loop guards, "
+                  "program_size test, second pass, widths and frame kinds are transcribed from the source, 22 source regions "
+                  "are compared as text; the model encoder replays the compiler's hook events and must reproduce the real "
+                  "tables byte for byte, the model decoder must agree with the real get_line_number on every code offset and "
+                  "with translate_absolute_line on every absolute line of every dumped program, the model trace assembly "
+                  "and the model dump_trace must agree with what the master's error_handler receives and with the captured "
+                  "log; the specification oracle compares every report (mapping, log text, compile-time diagnostics) with "
+                  "the generator's record of where the statement is")
+    level_note = ("trusted: Lean kernel; extract.py and the regex transcription in props/c18.py; the correspondence harness "
+                  "(differential, generated programs only); proved with size conditions only: absolute lines, program "
+                  "strings and code bytes < 2^16 (witness beyond 2^16 lines: open finding C18-F3; beyond 2^16 code bytes the "
+                  "compiler now refuses the program, fix C18-F6); which line the code generator attributes to a parse node "
+                  "and the line the compiler reports a diagnostic at are compared with the generator's record, not proved; "
+                  "the oracle clauses over strings (J1, J7, J8) are checked on real runs, their data-level counterparts are "
+                  "proved")
     rule = ("cases = corpus + known-finding inputs + boundary list (statement code of exactly 200..766 bytes, failing "
             "statement in every slot of a 3 level include tree, 253..64000 lines in front, inherited program, function "
-            "literal, multi-line and long statements, saved binary) + seeded random program families (1-4 child "
+            "literal, multi-line and long statements, macros and string literals spanning lines, saved binary, include "
+            "chains of depth 5 / 31 / 32, global include configuration, compile-time warnings and errors on known lines, "
+            "12 KB program, program beyond 65535 bytes) + seeded random program families (1-4 child "
             "functions, 0-3 inherited functions, include depth 0-3 each, call styles return/assign/function "
-            "literal/catch/multi-line, 8 failing statement kinds, paddings of 0..63000 blank/comment lines and 0..200 "
+            "literal/catch/multi-line, 13 failing statement kinds, paddings of 0..63000 blank/comment lines and 0..200 "
             "filler statements, #pragma save_binary reload of every program of the family; every scenario runs 1-3 times in "
             "one driver (apply cache miss and hit paths) and is started by an apply, reset_object, a heart beat, a call_out "
             "or create() of a clone; next function reached by local call, ::, call_other, ->, simul_efun, function "
-            "pointers (literal, nested, multi-line, local function, efun, simul_efun), another object; files end with / "
+            "pointers (literal, nested, multi-line, local function, efun, simul_efun), efun callbacks (map_array, "
+            "filter_array), another object; files end with / "
             "without newline, blank lines, code on the last line, one-line includes; headers included repeatedly / "
-            "recursively; global initialisers); a case is non-trivial when its trace has >= 2 lines; "
+            "recursively; global initialisers, also on the line a function ends on; a third of the families under the "
+            "GlobalInclude configuration and with #pragma warnings + provoked diagnostics; thorough: a 64.6 KB program with "
+            "more than 64 KB of line tables); a case is non-trivial when its trace has >= 2 lines; "
             "distinct = distinct canonical implementation trace")
     not_covered = ["which source line the parser attributes to a parse node (LALR look-ahead may move it inside the "
                    "statement; the oracle accepts any line of the statement's extent)",
-                   "dump_trace()'s textual log output (same get_line_number calls; only the mapping handed to the master is compared)",
-                   "programs larger than 65535 bytes / line tables larger than 64 KB (program_size, file_info[0] are 16 bit)",
-                   "MAX_INCLUDE_DEPTH overflow and GLOBAL_INCLUDE_FILE"]
+                   "argument and local variable VALUES printed by dump_trace with ArgumentsInTrace / LocalVariablesInTrace "
+                   "(svalue_to_string); only which lines are printed for which frame is modelled",
+                   "errors raised inside the master's error handler (in_error / in_mudlib_error_handler paths) and the "
+                   "heart-beat switch-off of error_handler()",
+                   "more than 65535 absolute lines in one compilation unit (open finding C18-F3)",
+                   "the text of compile-time messages other than file and line (J8 fixes the first words only)"]
 
     LEAN_OP = {">": ">", "<": "<", ">=": "≥", "<=": "≤", "==": "=", "!=": "≠"}
 
@@ -840,6 +859,74 @@ class C18(Prop):
             ("srcTraceFrames", L(sim, "array_t* get_svalue_trace (int how) {", "return v;", r"add_mapping_(string|object|pair) \(m|get_trace_details|line_number_info|framekind|for \(p|allocate_empty_array \(\(csp", "simulate:get_svalue_trace")),
             ("srcErrorMapping", L(R("src/error_context.c"), "static void mudlib_error_handler (", "push_refed_mapping (m);", r"add_mapping|get_line_number_info|if \(current", "error_context:mudlib_error_handler")),
             ("srcPushControl", L(R("src/frame.c"), "void push_control_stack (int frkind) {", "csp->pc = pc;", r"csp", "frame:push_control_stack")),
+        ]
+
+    LEXVARS = {"current_line": "cur", "current_line_saved": "saved", "current_line_base": "base",
+               "current_file_id": "fid", "p->line": "pline", "is->line": "isline", "p->file_id": "pfid",
+               "is->file_id": "isfid"}
+
+    def _cexpr(self, e, site):
+        """a C integer expression over the lexer counters -> Lean (identifiers mapped, only + - ( ) and literals)"""
+        toks = re.findall(r"[A-Za-z_][A-Za-z_0-9]*(?:->[A-Za-z_]+)?|\d+|[-+()]", e)
+        if "".join(toks) != re.sub(r"\s+", "", e):
+            raise X.TieBroken(site, "expression not understood: %s" % e)
+        out = []
+        for t in toks:
+            if t in self.LEXVARS:
+                out.append(self.LEXVARS[t])
+            elif re.match(r"^\d+$|^[-+()]$", t):
+                out.append(t)
+            else:
+                raise X.TieBroken(site, "unknown identifier %s in %s" % (t, e))
+        return " ".join(out)
+
+    def _lex_steps(self, name, lines, site, params, result):
+        """the statement list of one lexer region as a Lean function: assignments to the counters are applied in source
+        order (`let x := ...` shadows), `save_file_info (id, n)` records what is written to file_info"""
+        body = []
+        for ln in lines:
+            m = re.match(r"^save_file_info \((.+?), (.+)\)$", ln)
+            if m:
+                body.append("let sfid := %s" % self._cexpr(m.group(1), site))
+                body.append("let scount := %s" % self._cexpr(m.group(2), site))
+                continue
+            m = re.match(r"^([A-Za-z_>\-]+) (=|\+=|-=) (.+)$", ln)
+            if m and m.group(1) in self.LEXVARS:
+                v = self.LEXVARS[m.group(1)]
+                rhs = m.group(3)
+                if re.match(r"^add_program_file \(", rhs):
+                    body.append("let %s := newfid" % v)
+                    continue
+                e = self._cexpr(rhs, site)
+                body.append("let %s := %s" % (v, e if m.group(2) == "=" else "%s %s (%s)" % (v, m.group(2)[0], e)))
+                continue
+            m = re.match(r"^([A-Za-z_>\-]+)(\+\+|--)$", ln)
+            if m and m.group(1) in self.LEXVARS:
+                v = self.LEXVARS[m.group(1)]
+                body.append("let %s := %s %s 1" % (v, v, m.group(2)[0]))
+                continue
+            if re.match(r"^handle_include \(", ln):
+                continue
+            raise X.TieBroken(site, "statement not understood: %s" % ln)
+        return ("def %s %s : %s :=\n  %s\n  %s" % (name, " ".join("(%s : Int)" % p for p in params),
+                                                    " × ".join(["Int"] * len(result)), "\n  ".join(body),
+                                                    "(" + ", ".join(result) + ")"))
+
+    def lexer_arithmetic(self):
+        """the line bookkeeping of `#include` (directive + handle_include), of the include pop and of the final segment,
+        transcribed statement by statement (-> NV.Gen.C18.lexPushGen / lexPopGen / lexFinalGen)"""
+        st = dict(self.source_statements())
+        push = st["srcIncludeDirective"] + st["srcHandleInclude"]
+        return [
+            self._lex_steps("lexPushGen", push, "lex:include-push", ["cur", "saved", "base", "fid", "newfid"],
+                            ["sfid", "scount", "isline", "isfid", "cur", "saved", "base", "fid"]),
+            self._lex_steps("lexPopGen", st["srcIncludePop"], "lex:include-pop", ["cur", "saved", "base", "fid", "pline", "pfid"],
+                            ["sfid", "scount", "cur", "saved", "base", "fid"]),
+            self._lex_steps("lexFinalGen", [l for l in st["srcFinalProgram"] if l.startswith("save_file_info")], "icode:final",
+                            ["cur", "saved", "fid"], ["sfid", "scount"]),
+            "def nodeLineGen (cur : Int) (base : Int) : Int := %s" % self._cexpr(
+                re.match(r"^next_node->line = \(short\)\((.+)\)$", st["srcNodeLine"][0]).group(1)
+                if re.match(r"^next_node->line = \(short\)\((.+)\)$", st["srcNodeLine"][0]) else "?", "parse_trees:new_node"),
         ]
 
     def source_statements2(self):
@@ -919,6 +1006,8 @@ class C18(Prop):
         out.append("def splitBound : Nat := %s" % m.group(2))
         out.append("def splitLen : Nat := %s" % m2[0])
         out.append("def splitDec : Nat := %s" % m3.group(1))
+        out.append("\n/-! the lexer's line arithmetic, transcribed statement by statement -/")
+        out += self.lexer_arithmetic()
         out.append("\n/-! the statements the model was written from, as they are in the source now -/")
         for name, lines in self.source_statements() + self.source_statements2():
             out.append("def %s : List String := [\n  %s]" % (name, ",\n  ".join('"%s"' % l.replace("\\", "\\\\").replace('"', '\\"') for l in lines)))
